@@ -962,8 +962,9 @@ func (n *node) Kill(pid gen.PID) error {
 	p := value.(*process)
 	state := atomic.SwapInt32(&p.state, int32(gen.ProcessStateZombee))
 	switch state {
-	case int32(gen.ProcessStateWaitResponse), int32(gen.ProcessStateRunning):
+	case int32(gen.ProcessStateWaitResponse), int32(gen.ProcessStateRunning), int32(gen.ProcessStateZombee):
 		// do not unregister process until its goroutine stopped
+		// (Zombee: it has been killed already and its goroutine is still busy)
 		return nil
 	case int32(gen.ProcessStateTerminated):
 		atomic.StoreInt32(&p.state, int32(gen.ProcessStateTerminated))
